@@ -177,6 +177,65 @@ fn sweep(ctx: &Ctx, name: &str, space: Space, cfgs: &[Prepared], lv: Levels) {
     });
 }
 
+/// Documents whose sizes sit just below, at and just above the implementation's thresholds.
+fn scaled_sweep(ctx: &Ctx, cfgs: &[Prepared]) {
+    let docs = scaled_docs(ctx.quick());
+    let quick = ctx.quick();
+    par_for(docs.len(), 1, |i| {
+        if ctx.over_time() {
+            return;
+        }
+        let (label, raw) = &docs[i];
+        for p in cfgs {
+            let input = adapt_to_encoding(raw, p.encoding);
+            let report = |msg: String, s: Option<&Sched>| {
+                let cfg = p.cfg.clone();
+                let inp = input.clone();
+                let sc = s.cloned();
+                ctx.violation(
+                    format!("{label}: {msg}"),
+                    json!({"cfg": cfg, "input_hex": hex(&input), "input_lossy": lossy(&input[..input.len().min(120)]), "sched": sc}),
+                    &|| {
+                        let p2 = Prepared::new(cfg.clone()).unwrap();
+                        check(&p2, &inp, sc.as_ref())
+                    },
+                );
+            };
+            let (r, rr0) = match reference(p, &input) {
+                Ok(r) => r,
+                Err(e) => {
+                    report(e, Some(&Sched::whole()));
+                    continue;
+                }
+            };
+            ctx.exec(rr0.results.len());
+            ctx.outcomes.insert(digest(&(&r.events, &r.out)));
+            for s in &scaled_scheds(input.len(), quick) {
+                let (m, calls) = compare(p, &input, s, &r);
+                ctx.exec(calls);
+                ctx.validated(1);
+                ctx.states.insert(digest(&(i, s.cuts.len(), s.cuts.first(), s.empty_at)));
+                if let Some(msg) = m {
+                    report(msg, Some(s));
+                }
+            }
+            ctx.exec(2);
+            if let Some(msg) = compare_rewrite_str(p, &input, &r) {
+                report(msg, None);
+            }
+            if !r.events.is_empty() {
+                ctx.nontrivial.insert(digest(&(&input, &p.cfg)));
+            }
+        }
+        if i % 97 == 3 {
+            ctx.sample(json!({"space": "scaled documents", "document": label, "configs": cfgs.len()}));
+        }
+    });
+    if !ctx.capped.load(std::sync::atomic::Ordering::Relaxed) {
+        ctx.level_done(&format!("{} scaled documents (sizes around 12, 32, 64, 256, 1024, 2048) x {} configs x fixed chunk sizes + cuts around the thresholds + rewrite_str", docs.len(), cfgs.len()));
+    }
+}
+
 pub fn run_check(ctx: &Ctx) -> i32 {
     let obs = observer_menu();
     let mark = marker_menu();
@@ -194,6 +253,13 @@ pub fn run_check(ctx: &Ctx) -> i32 {
         .collect();
     let l1 = Levels { l1: true, l2_max_len: 0, bytewise: true, empties: false };
     let k = F.len();
+    {
+        let mut sc = prep_menu(&obs, &["everything", "el(a[b])", "text(title)+text(script)"], &[false], "UTF-8");
+        sc.extend(prep_menu(&mark, &["mark-text(*)+comments(*)", "rewrite-el(*)", "mark-el(a)"], &[false], "UTF-8"));
+        sc.extend(prep_menu(&obs, &["everything"], &[false], "Shift_JIS"));
+        sc.extend(prep_menu(&mark, &["mark-text(*)+comments(*)"], &[false], "windows-1252"));
+        scaled_sweep(ctx, &sc);
+    }
     if ctx.quick() {
         let l12 = Levels { l1: true, l2_max_len: 16, bytewise: true, empties: true };
         sweep(ctx, "F<=2 x 18 configs x L1,L2(len<=16),LB,LE,rewrite_str", Space::Frags { k, max: 2 }, &full, l12);
